@@ -142,7 +142,13 @@ def run(ctx):
     for _ in range(n):
         r = rng.random()
         method = rng.choice(METHODS)
-        if r < 0.1:
+        if r < 0.06:
+            # entries at the int64 boundary (the selection methods must not treat any value as a sentinel)
+            BIG = [2**63 - 1, -(2**63), 2**63 - 2, 0, 0, 5, -5]
+            nr, nc = rng.randint(1, 3), rng.randint(1, 4)
+            do_case(ctx, {"dim": 2, "method": rng.choice(["first", "last", "min", "max"]), "axis": rng.choice([0, 1]),
+                          "m": [[rng.choice(BIG) for _ in range(nc)] for _ in range(nr)]})
+        elif r < 0.1:
             runs = []
             for _ in range(rng.randint(1, 8)):
                 v = rng.choice([1, -1, 2, -2, 3, -3, 7, -9])
